@@ -21,9 +21,10 @@ Fault(t, k, v) == [t |-> t, k |-> k, v |-> v, sig |-> "ok"]
 Culprits(t, ks) == [i \in 1..Len(ks) |-> Culprit(t, ks[i])]
 EmptyPsi == [g |-> <<>>, b |-> <<>>, w |-> <<>>, o |-> <<>>]
 
-Case(psi, rho, vs, cs, fs) ==
+CaseT(tau, psi, rho, vs, cs, fs) ==
   [kappa |-> Kappa, lambda |-> Lambda, psi |-> psi,
-   blocks |-> <<[tau |-> Tau, rho |-> rho, verdicts |-> vs, culprits |-> cs, faults |-> fs]>>]
+   blocks |-> <<[tau |-> tau, rho |-> rho, verdicts |-> vs, culprits |-> cs, faults |-> fs]>>]
+Case(psi, rho, vs, cs, fs) == CaseT(Tau, psi, rho, vs, cs, fs)
 
 \* what a verdict with p positive votes needs (10.13, 10.14), on keys ks
 Needs(t, p, ks) == IF p = 0 THEN [c |-> Culprits(t, ks), f |-> <<>>]
@@ -83,9 +84,23 @@ F4 == {Case(EmptyPsi, <<3, 6>>, Base4.vs, Base4.cs, Base4.fs)}
                       Votes(0, 5) \o <<[v |-> FALSE, i |-> 5, sig |-> "ok"]>>,
                       <<>>}}
 
-Cases == F1 \cup F2 \cup F3 \cup F4
+\* family 5: age x epoch partition (E = 12): prior tau in epoch 0, 1 (first and last slot), 2; every age label;
+\* the three accepted counts.  In epoch 0 "prev" (age floor(tau/E)-1) does not exist as a natural number: the
+\* driver encodes the wrapped value, and the judge accepts either outcome there (see Disputes_Trace).
+F5 == {CaseT(tau, EmptyPsi, <<4, 6>>, <<Verdict(4, age, p, omit)>>, Needs(4, p, <<1, 5>>).c, Needs(4, p, <<1, 5>>).f) :
+         tau \in {0, 5, 11, 12, 17, 23, 24, 30}, age \in {"cur", "prev", "old", "next"}, p \in {0, 2, 5}, omit \in {1, 5}}
+
+\* family 6: a judgement repeated (same validator index, same valid signature) at EVERY adjacent position,
+\* including the last pair, for the three accepted counts and both ages; and the same index at distance two
+Dup(vv, j) == [vv EXCEPT ![j + 1].i = vv[j].i, ![j + 1].v = vv[j].v]
+F6 == {Case(EmptyPsi, <<4, 0>>, <<[Verdict(4, age, p, omit) EXCEPT !.votes = Dup(Votes(p, omit), j)]>>,
+            Needs(4, q, <<1, 5>>).c, Needs(4, q, <<1, 5>>).f) :
+         age \in {"cur", "prev"}, p \in {0, 1, 2, 3, 5}, q \in {0, 2, 5}, omit \in {0, 5}, j \in 1..4}
+      \cup {Case(EmptyPsi, <<4, 0>>, <<[Verdict(4, "cur", 5, 5) EXCEPT !.votes[j + 2].i = j - 1]>>, <<>>, <<Fault(4, 1, FALSE)>>) : j \in 1..3}
+
+Cases == F1 \cup F2 \cup F3 \cup F4 \cup F5 \cup F6
 ASSUME ndJsonSerialize(OutFile, SetToSeq(Cases))
-ASSUME PrintT(<<"GEN", Cardinality(F1), Cardinality(F2), Cardinality(F3), Cardinality(F4)>>)
+ASSUME PrintT(<<"GEN", Cardinality(F1), Cardinality(F2), Cardinality(F3), Cardinality(F4), Cardinality(F5), Cardinality(F6)>>)
 GenInit == x = 0
 GenNext == FALSE /\ x' = x
 =============================================================================
